@@ -64,11 +64,12 @@ def _c():
     return _ctx
 
 
-def proof(prop, targets=(), assumes=(), name=None, note=''):
+def proof(prop, targets=(), assumes=(), name=None, note='', native=True):
     def deco(fn):
         d = Decl(prop, name or fn.__name__, fn, list(targets), list(assumes),
                  note)
         d.kind = 'proof'
+        d.native = native
         PROOFS[(fn.__module__, d.name)] = d
         return fn
     return deco
